@@ -1,5 +1,6 @@
 import SlipVerif.Gen.ConcCode
 import SlipVerif.Model.Conc
+import SlipVerif.Model.Close
 /-
   C17 — obligations over the regenerated structural facts of the Go code (Gen/ConcCode.lean,
   extract/conccode.go). Each states a fact the abstract semantics of Model/Conc.lean takes for
@@ -14,6 +15,14 @@ open SlipVerif.Gen.ConcCode SlipVerif.Conc
     pushed (a receive without the check delivers nil from a closed channel) -/
 theorem range_receives_with_closed_check :
     rangeUnchecked = 0 ∧ 0 < rangeChecked ∧ rangeLenUses = 0 ∧ rangeNonBlocking = false := by decide
+
+/-- the range step the code implements (receives without the closed check iff the code has such a
+    receive) is the model's: the theorems of Theorems/C17Close.lean (`range_close_exactly_once`,
+    `close_nothing_invented`) are about `Close.step cap false` -/
+theorem range_step_is_the_models (cap : Option Nat) (st : Close.St) (a : Close.Act) :
+    Close.step cap (decide (rangeUnchecked ≠ 0)) st a = Close.step cap false st a := by
+  have : decide (rangeUnchecked ≠ 0) = false := by decide
+  rw [this]
 
 /-- `channel-pop` is one blocking receive and `channel-push` one blocking send (model: `pop` does
     not move on an empty queue, `push` does not move on a full one; nothing is dropped or invented) -/
